@@ -9,8 +9,12 @@
        (`root_frame_leaves_nothing`), so the "discard leftovers" loop and the "callback missing at root" abort never
        act on a live command;
    (b) an abort always finds the command's own metadata (never_panics / tracker invariant).
-   What is NOT yet a theorem (rests on the correspondence check and the m_runs monitor only): the counting form of
-   (a) "exactly one start or abort per command id" over the event log, and termination (e) — see DESIGN §5 C02. *)
+   (a) in ticket form, for every command that draws a ticket (system events, broadcast / entity-event / entity /
+       despawn reactions): over a whole run each is set up exactly once, by the run it causes or by the abort path, none
+       lost and none twice (`every_event_carrying_command_is_resolved_exactly_once`).
+   What is NOT a theorem (rests on the correspondence check and the m_runs monitor): (a) for the commands that draw no
+   ticket (plain system commands, resource-mutation reactions), whose resolutions are not distinguishable in the ghost
+   state, and as a count over the event log; termination (e) — see DESIGN §5 C02. *)
 From Cobweb Require Import Machine.
 Require Import Coq.Sorting.Permutation.
 From CobwebProofs Require Import RunnerInv TicketInv TopLevel.
